@@ -450,7 +450,7 @@ Lemma str_tree_supp : forall (O : eopts) (D : dopts) (text : bool) (s : list N),
 Proof.
   intros O D text s Hl. unfold str_tree.
   assert (Hc : Forall (fun c : width * list N => N.of_nat (length (snd c)) < 9223372036854775808)
-                 (map (fun c => (minw (N.of_nat (length c)), c)) (chunks (length s) (chunk_len (length s)) s))).
+                 (map (fun c => (minw (N.of_nat (length c)), c)) (chunks text (length s) (chunk_len (length s)) s))).
   { apply Forall_map. cbn [snd].
     apply (chunks_Forall _ (fun l => (length l <= length s)%nat)).
     - intros l n H. rewrite skipn_length. lia.
